@@ -1,8 +1,8 @@
 SPECIFICATION Spec
 CONSTANTS
-  Elems = {1}
+  Elems = {1, 2, 3}
   Workers = {1}
   MaxT = 1
-  MaxSizes = {0}
-  Variant = "add_unguarded"
+  MaxSizes = {2}
+  Variant = "code"
 INVARIANTS TypeOK AtMostOnce NeverEarly CancelHonoured CancelRemoves QuietDelivered QuietShutdown
